@@ -16,7 +16,19 @@ REPO = os.environ.get("COHDL_SRC", "/repo")
 PY = "/venv/bin/python"
 COQ_DIR = os.path.join(VERIF, "coq")
 GEN = os.path.join(VERIF, "gen")
-NCPU = min(16, os.cpu_count() or 4)
+def _jobs():
+    """number of parallel workers: all cores on an idle machine, fewer when it is already oversubscribed"""
+    n = min(16, os.cpu_count() or 4)
+    try:
+        load = os.getloadavg()[0]
+    except OSError:
+        load = 0.0
+    if load > n:
+        return max(3, int(n * n / load))
+    return n
+
+
+NCPU = _jobs()
 
 TRUSTED_BASE_COMMON = [
     "Coq 8.16.1 kernel including its vm_compute machine (no native_compute)",
@@ -61,7 +73,7 @@ def run_workers(script, payloads, timeout=900, jobs=NCPU):
 # Coq
 # ----------------------------------------------------------------------------
 
-CORE_TARGETS = ["theories/Base/Util.vo", "theories/Equiv/Monitor.vo", "theories/Models/Coro.vo", "theories/Models/StdSpecs.vo"]
+CORE_TARGETS = ["theories/Base/Util.vo", "theories/Equiv/Monitor.vo", "theories/Equiv/StoreTS.vo", "theories/Models/Coro.vo", "theories/Models/StdSpecs.vo"]
 
 
 def ensure_coq_built(pid=None, quiet=True):
